@@ -61,6 +61,42 @@ Theorem C10_generate_no_injection : forall c, special c -> forall params pattern
 Proof. exact generate_counts. Qed.
 Print Assumptions C10_generate_no_injection.
 
+(* POSITIONAL FORM.  Substitution commutes with the split at any byte that no placeholder
+   contains - no condition on the values *)
+Theorem C10_generate_split : forall c params,
+  (forall k v, In (k, v) params -> has_byte (code c) (placeholder k) = false) ->
+  forall a b,
+  generate_path (a ++ String c b) params =
+  (generate_path a params ++ String c (generate_path b params))%string.
+Proof. exact generate_split. Qed.
+Print Assumptions C10_generate_split.
+
+(* hence, for parameters free of '?', the first-'?' split of the generated path (the one
+   url.Parse makes) is (substituted path part, substituted query part) of url_pattern: a
+   parameter written in the path part stays in the path part, one written in the static query
+   stays in the query part *)
+Theorem C10_generate_positional : forall pattern pp sq f params,
+  cut c_qm pattern = (pp, sq, f) ->
+  (forall k v, In (k, v) params -> has_byte c_qm k = false /\ has_byte c_qm v = false) ->
+  cut c_qm (generate_path pattern params) = (generate_path pp params, generate_path sq params, f).
+Proof. exact generate_positional. Qed.
+Print Assumptions C10_generate_positional.
+
+(* a static query in which no placeholder is written reaches the URL exactly as written *)
+Theorem C10_static_query_unchanged : forall pattern pp sq f params,
+  cut c_qm pattern = (pp, sq, f) ->
+  (forall k v, In (k, v) params -> has_byte c_qm k = false /\ has_byte c_qm v = false) ->
+  (forall k v, In (k, v) params -> occurs (placeholder k) sq = false) ->
+  cut c_qm (generate_path pattern params) = (generate_path pp params, sq, f).
+Proof. exact static_query_unchanged. Qed.
+Print Assumptions C10_static_query_unchanged.
+
+(* the count form is a corollary of the positional form (oracle level) *)
+Theorem C10_positional_implies_counts : forall pattern path,
+  same_counts_pos pattern path = true -> same_counts pattern path = true.
+Proof. exact same_counts_pos_counts. Qed.
+Print Assumptions C10_positional_implies_counts.
+
 (* ---- URL assembly (load balancer + http proxy) ---- *)
 
 (* explicit shape: configured host, a generated path without control bytes and '#', whose part
@@ -100,6 +136,23 @@ Theorem C10_assembly_meets_oracle : forall hosts h path q,
 Proof. exact assemble_meets_oracle. Qed.
 Print Assumptions C10_assembly_meets_oracle.
 
+(* split_url (host ++ generate pat ps): url_pattern with parameters free of '%' '?' '#' and
+   control bytes - the backend IS called, with the configured host, path = substituted path part,
+   no fragment, query = substituted query part [&] Encode(forwarded) *)
+Theorem C10_positional_url : forall h pattern pp sq f params q,
+  wf_host h = true -> starts_with_slash pattern = true -> has_ctl pattern = false ->
+  has_byte c_hash pattern = false -> cut c_qm pattern = (pp, sq, f) -> has_byte c_pct pp = false ->
+  clean_params params -> (forall k v, In (k, v) params -> has_ctl v = false) ->
+  exists c, assemble h (generate_path pattern params) q = Some c /\
+    o_host c = h /\ o_path c = generate_path pp params /\ o_frag c = EmptyString /\
+    o_rawquery c = match q with
+                   | [] => generate_path sq params
+                   | _ => if str_eqb (generate_path sq params) "" then values_encode q
+                          else (generate_path sq params ++ String (chr c_amp) (values_encode q))%string
+                   end.
+Proof. exact positional_url. Qed.
+Print Assumptions C10_positional_url.
+
 (* ---- the gin engine with default options ---- *)
 
 (* a request whose extracted parameter contains '%', '?' or '#' is rejected (400, no proxy) *)
@@ -118,6 +171,31 @@ Theorem C10_gin_no_injection : forall route allow be_allow pattern h target para
   count_byte b path = count_byte b pattern.
 Proof. exact gin_no_injection. Qed.
 Print Assumptions C10_gin_no_injection.
+
+(* positional form for the gin engine: whenever the proxy is reached, the generated path splits
+   at its first '?' exactly where url_pattern does *)
+Theorem C10_gin_positional : forall route allow be_allow pattern h target params path qep q c pp sq f,
+  clean_names route -> cut c_qm pattern = (pp, sq, f) ->
+  gin_request route allow be_allow pattern h target = GProxy params path qep q c ->
+  cut c_qm path = (generate_path pp params, generate_path sq params, f).
+Proof. exact gin_positional. Qed.
+Print Assumptions C10_gin_positional.
+
+(* BOUNDARY of the 400 guarantee (refuted reading): "a path parameter can never add query
+   parts" does not hold for '&' / '=' when url_pattern has a placeholder INSIDE its static
+   query: the request below passes the checker, stays in the query part (positional oracle
+   true), and the backend URL carries admin=true, a key neither in url_pattern nor sent as
+   a query parameter by the client.  The checker excludes exactly '%', '?', '#'. *)
+Theorem C10_query_pair_via_static_placeholder_refuted :
+  exists target params path c,
+    gin_request [Lit "a"; Par "p"] ["*"] [] "/b?id={{.P}}&s=1" "http://h" target
+      = GProxy params path [] [] (Some c) /\
+    forallb (fun kv => param_ok (snd kv)) params = true /\
+    pvals "admin" (fst (parse_query "id={{.P}}&s=1")) = [] /\
+    pvals "admin" (fst (parse_query (o_rawquery c))) = ["true"] /\
+    same_counts_pos "/b?id={{.P}}&s=1" path = true.
+Proof. exact static_query_placeholder_refuted. Qed.
+Print Assumptions C10_query_pair_via_static_placeholder_refuted.
 
 (* the executable model satisfies the boolean oracle for every request line *)
 Theorem C10_model_meets_oracle : forall route allow be_allow pattern hosts h target,
